@@ -58,6 +58,80 @@ CLAIMED['C07'] = dict(
          'entries for m <= 2 (n <= 3) and m x 1 (m <= 4); real-axis / complex-subfield entries for 3x2, 2x3, 3x3 (quick) and up to 4x4 (thorough).',
     ref='3/C07')
 
+CLAIMED['C03'] = dict(
+    text='With A and gamma in (0,1] symbolic: the iterate returned after k iterations equals the documented recurrence from X0 = A^H/||A||_F^2 (left form '
+         'for m >= n, right form for m < n; third-order update) as a rational-function identity (shapes up to 2x2 full / 3x2 real, k <= 2); every entry of '
+         'the residual dict and covariance list is the true value of the iterate it is reported for; on the diagonal family A = diag(s) padded (any s > 0) '
+         'the iterates follow the spectral model t <- t(1+gamma(1-t)) resp. 1-(1-t)^3 and ||AXA-A||_F does not increase (k <= 3); runs that stop early do '
+         'so only below tol; the zero matrix gives X = 0.',
+    ref='3/C03')
+CLAIMED['C04'] = dict(
+    text='For n = 1 (A, b symbolic) and n = 2 (A from the named classes identity / scaled identity / diagonal / triangular / Hermitian / real-axis generic, b '
+         'symbolic), dense or sparse A, preconditioner none / left_lu, iteration caps 0..n: on every path of the symbolic run, including every lucky-breakdown '
+         'and degenerate-rotation path, info.residual is the true relative residual of the returned x, converged is only reported for a residual <= 10 tol, '
+         'the default cap reaches tol, the residual history is non-increasing, b = 0 gives x = 0, and both preconditioner settings return solutions of the system.',
+    ref='3/C04')
+CLAIMED['C05'] = dict(
+    text='Glue level only: with np.linalg.svd replaced by a structured contract stub, classical_qsvd(_full) hands LAPACK the real embedding of the input '
+         '(full_matrices=True), contracts U and Vt^T correctly, takes every 4th singular value, truncates to rank R with the documented shapes, and the '
+         'returned triple satisfies A - U_R S_R V_R^H = tail for every (m,n) <= 3x3 and every R; 1x1 input with ANY orthogonal real U (thorough).',
+    ref='3/C05',
+    note='LAPACK (compiled Fortran) cannot be encoded: orthonormality of the contracted U, V for repeated / zero singular values is OUTSIDE the claim '
+         '(evidence: outside_claim). Floats as reals; shim environment model; z3.')
+CLAIMED['C06'] = dict(
+    text='Glue level only: with scipy.linalg.qr replaced by a structured contract stub, qr_qua hands LAPACK the real embedding of the input, extracts the thin '
+         '(tall/square) or full (wide) factors, contracts them, returns the documented shapes, Q R = A and an upper-trapezoidal R for every shape <= 3x3 '
+         'including wide ones.',
+    ref='3/C06',
+    note='LAPACK cannot be encoded: that its real QR of the embedding is quaternion-structured (needed for orthonormal Q and A = QR on wide / rank-deficient '
+         'input) is OUTSIDE the claim. Floats as reals; shim environment model; z3.')
+CLAIMED['C08'] = dict(
+    text='householder_matrix on a symbolic quaternion vector of length 1..3 is unitary and maps it to a real multiple of e1 of modulus ||a|| on every branch '
+         '(zero vector, zero first entry); tridiagonalize on a symbolic Hermitian matrix (n = 2 full; n = 3 for the listed sparsity patterns incl. zero '
+         'sub-columns, already tridiagonal with complex off-diagonals, diagonal; n = 3 real/complex/full in thorough) returns unitary P and real symmetric '
+         'tridiagonal B with P A P^H = B (the clean-up discards nothing); non-square, 1x1 and non-Hermitian-by-a-margin inputs raise; eigendecomposition glue: '
+         'with eig replaced by its contract, eigenvalues are those of B and A V = V diag(lambda).',
+    ref='3/C08',
+    note='The eigen-solver part rests on a contract stub of np.linalg.eig (LAPACK): unitarity of V / correctness of the spectrum for repeated eigenvalues are '
+         'outside the claim. Floats as reals; shim environment model; z3.')
+CLAIMED['C09'] = dict(
+    text='hessenbergize: n <= 2 returns (I, copy of A); n = 3 with symbolic entries (real / complex / patterns with zero sub-columns, already Hessenberg, '
+         'triangular; full quaternions in thorough): P unitary, H = P A P^H on and above the sub-diagonal, exact zero below it with the discarded value '
+         'bounded by 1e-12, equal Frobenius norms; n = 3..5 compositionally with the reflector replaced by arbitrary symbolic matrices: update order, '
+         'embedding offsets and the column handed to the reflector generator are pinned as polynomial identities.',
+    ref='3/C09')
+CLAIMED['C11'] = dict(
+    text='Glue level: with the Q-SVD / eigen-solver replaced by contract stubs (symbolic factors, sorted non-negative singular values), on every threshold '
+         'path: rank = #{s_i > eps*max(m,n)*s_1} (or > tol), rank(A^H) = rank(A); the null-space routines and wrappers return exactly the trailing columns of '
+         'V (U) with shape (dim, dim - r), whose singular values are <= rtol*s_1, and agree with rank for equal thresholds; Dieudonne determinant = product '
+         'of singular values, Moore = product of eigenvalues and refused for a non-Hermitian-by-a-margin matrix; ishermitian accepts exactly Hermitian '
+         'symbolic matrices and rejects a 1e-3 relative defect.',
+    ref='3/C11',
+    note='Independence of null vectors for nullity >= 2, det multiplicativity and rank invariance under invertible factors depend on LAPACK bases (C05) and are '
+         'outside the claim. Floats as reals; shim; z3.')
+CLAIMED['C14'] = dict(
+    text='With an aliasing-faithful shim: every cell of every argument of ~45 public entry points (algebra, norms, kernels, LU, reductions, pseudoinverse '
+         'solvers, Q-GMRES, imaging) equals its initial term after the call; vars(solver) is unchanged by a call for all five solver classes; for QGMRESSolver '
+         'and RandomizedSketchProjectPseudoinverse every two-problem history over different sizes hands the same effective configuration (iteration cap, '
+         'block size) to the kernels as a fresh object; repeating a Newton-Schulz call repeats the result.',
+    ref='3/C14',
+    note='Import-style clause and reproducibility of the real bit generator are outside the claim (not values). Histories use recording stubs for the '
+         'heavy kernels. Floats as reals; shim; z3.')
+CLAIMED['C16'] = dict(
+    text='ggivens on two symbolic quaternions (all kinds incl. zero / real / pure components, both ordering branches, the tiny-norm branch): G is orthogonal, '
+         'quaternion-structured and maps the pair to (norm, 0); GRSGivens in both call forms is orthogonal and maps g to (|g|,0,0,0) unless the imaginary part '
+         'is negligible; Hess_QR_ggivens for k = 1 (k = 2, 3 in thorough) on every zero pattern: W^H W = I, W R = H, R upper triangular; absQsparse / '
+         'dotinvQsparse accuracy over |q| in [1e-6,1e6]; forward, backward and component-form substitution for n <= 3 (4 thorough) and 1..3 right-hand sides: '
+         'each entry is the routine\'s own scalar step applied to the remainder, and the scalar step satisfies |d x - 1| <= 1e-10.',
+    ref='3/C16')
+CLAIMED['C20'] = dict(
+    text='Guard table (18 rows, ~120 cells): for each anchored entry point and each out-of-domain argument class (non-square, wrong orientation, real / sparse '
+         'where a dense quaternion array is required, 1-D, empty, mismatched sizes, wrong fold shape, non-Hermitian by a margin) every path of the symbolic run '
+         'raises the documented exception with all arguments unchanged; enumerated options (norm ord, determinant type, null-space side, unfolding mode, '
+         'boundary, adjoint axis) are symbolic strings / ints so that exactly the documented spellings are accepted; in-domain boundary shapes (1x1, 1xn, nx1) '
+         'never trip a guard.',
+    ref='3/C20')
+
 NOT_YET = {}
 
 NA = {
